@@ -2306,22 +2306,22 @@ impl Server {
         };
         
         // Extract min score
-        let min_score = match &parts[2] {
+        let (min_score, min_exclusive) = match &parts[2] {
             RespFrame::BulkString(Some(bytes)) => {
-                match String::from_utf8_lossy(bytes).parse::<f64>() {
-                    Ok(n) => n,
-                    Err(_) => return Ok(RespFrame::error("ERR min or max is not a float")),
+                match Self::parse_score_bound(bytes) {
+                    Some(bound) => bound,
+                    None => return Ok(RespFrame::error("ERR min or max is not a float")),
                 }
             }
             _ => return Ok(RespFrame::error("ERR invalid min score format")),
         };
         
         // Extract max score
-        let max_score = match &parts[3] {
+        let (max_score, max_exclusive) = match &parts[3] {
             RespFrame::BulkString(Some(bytes)) => {
-                match String::from_utf8_lossy(bytes).parse::<f64>() {
-                    Ok(n) => n,
-                    Err(_) => return Ok(RespFrame::error("ERR min or max is not a float")),
+                match Self::parse_score_bound(bytes) {
+                    Some(bound) => bound,
+                    None => return Ok(RespFrame::error("ERR min or max is not a float")),
                 }
             }
             _ => return Ok(RespFrame::error("ERR invalid max score format")),
@@ -2335,8 +2335,11 @@ impl Server {
             _ => false,
         };
         
-        // Get range by score
-        let members = self.storage.zrangebyscore(db, key, min_score, max_score, false)?;
+        // Get range by score (the storage range is inclusive; "(" bounds drop the boundary scores)
+        let members: Vec<(Vec<u8>, f64)> = self.storage.zrangebyscore(db, key, min_score, max_score, false)?
+            .into_iter()
+            .filter(|(_, score)| !(min_exclusive && *score == min_score) && !(max_exclusive && *score == max_score))
+            .collect();
         
         // Format response
         if with_scores {
@@ -2370,22 +2373,22 @@ impl Server {
         };
         
         // Extract max score
-        let max_score = match &parts[2] {
+        let (max_score, max_exclusive) = match &parts[2] {
             RespFrame::BulkString(Some(bytes)) => {
-                match String::from_utf8_lossy(bytes).parse::<f64>() {
-                    Ok(n) => n,
-                    Err(_) => return Ok(RespFrame::error("ERR min or max is not a float")),
+                match Self::parse_score_bound(bytes) {
+                    Some(bound) => bound,
+                    None => return Ok(RespFrame::error("ERR min or max is not a float")),
                 }
             }
             _ => return Ok(RespFrame::error("ERR invalid max score format")),
         };
         
         // Extract min score
-        let min_score = match &parts[3] {
+        let (min_score, min_exclusive) = match &parts[3] {
             RespFrame::BulkString(Some(bytes)) => {
-                match String::from_utf8_lossy(bytes).parse::<f64>() {
-                    Ok(n) => n,
-                    Err(_) => return Ok(RespFrame::error("ERR min or max is not a float")),
+                match Self::parse_score_bound(bytes) {
+                    Some(bound) => bound,
+                    None => return Ok(RespFrame::error("ERR min or max is not a float")),
                 }
             }
             _ => return Ok(RespFrame::error("ERR invalid min score format")),
@@ -2400,7 +2403,10 @@ impl Server {
         };
         
         // Get range by score in reverse order
-        let members = self.storage.zrangebyscore(db, key, min_score, max_score, true)?;
+        let members: Vec<(Vec<u8>, f64)> = self.storage.zrangebyscore(db, key, min_score, max_score, true)?
+            .into_iter()
+            .filter(|(_, score)| !(min_exclusive && *score == min_score) && !(max_exclusive && *score == max_score))
+            .collect();
         
         // Format response
         if with_scores {
@@ -2420,6 +2426,20 @@ impl Server {
         }
     }
     
+    /// Score bound of ZRANGEBYSCORE / ZREVRANGEBYSCORE / ZCOUNT: a float (inf and -inf
+    /// included, NaN not), optionally prefixed with "(" for an exclusive bound
+    fn parse_score_bound(bytes: &[u8]) -> Option<(f64, bool)> {
+        let text = String::from_utf8_lossy(bytes);
+        let (number, exclusive) = match text.strip_prefix('(') {
+            Some(rest) => (rest, true),
+            None => (text.as_ref(), false),
+        };
+        match number.parse::<f64>() {
+            Ok(n) if !n.is_nan() => Some((n, exclusive)),
+            _ => None,
+        }
+    }
+    
     /// Handle ZCOUNT command
     fn handle_zcount(&self, parts: &[RespFrame], db: usize) -> Result<RespFrame> {
         // ZCOUNT key min max
@@ -2434,31 +2454,36 @@ impl Server {
         };
         
         // Extract min score
-        let min_score = match &parts[2] {
+        let (min_score, min_exclusive) = match &parts[2] {
             RespFrame::BulkString(Some(bytes)) => {
-                match String::from_utf8_lossy(bytes).parse::<f64>() {
-                    Ok(n)
-
- => n,
-                    Err(_) => return Ok(RespFrame::error("ERR min or max is not a float")),
+                match Self::parse_score_bound(bytes) {
+                    Some(bound) => bound,
+                    None => return Ok(RespFrame::error("ERR min or max is not a float")),
                 }
             }
             _ => return Ok(RespFrame::error("ERR invalid min score format")),
         };
         
         // Extract max score
-        let max_score = match &parts[3] {
+        let (max_score, max_exclusive) = match &parts[3] {
             RespFrame::BulkString(Some(bytes)) => {
-                match String::from_utf8_lossy(bytes).parse::<f64>() {
-                    Ok(n) => n,
-                    Err(_) => return Ok(RespFrame::error("ERR min or max is not a float")),
+                match Self::parse_score_bound(bytes) {
+                    Some(bound) => bound,
+                    None => return Ok(RespFrame::error("ERR min or max is not a float")),
                 }
             }
             _ => return Ok(RespFrame::error("ERR invalid max score format")),
         };
         
         // Get count
-        let count = self.storage.zcount(db, key, min_score, max_score)?;
+        let count = if min_exclusive || max_exclusive {
+            self.storage.zrangebyscore(db, key, min_score, max_score, false)?
+                .into_iter()
+                .filter(|(_, score)| !(min_exclusive && *score == min_score) && !(max_exclusive && *score == max_score))
+                .count()
+        } else {
+            self.storage.zcount(db, key, min_score, max_score)?
+        };
         
         Ok(RespFrame::Integer(count as i64))
     }
